@@ -391,7 +391,7 @@ def run(ctx):
     ctx.note("rule", "one case = one TLC state (type tree, protocol version, value | out-of-range number | null/empty cell); "
                      "each is run through the compiled and the pure cqltypes and, as ROWS cells, through ListParser, LazyParser "
                      "and the pure row decoder; non-trivial as in C02")
-    for need in ("null-field", "null-collection-element", "empty-collection", "aware-timestamp", "inet-mixed-text", "inet-canonical-text-with-dotted-quad", "wide-integer-64bit-and-beyond", "decimal-scale-int32-limit", "short-udt-encodings", "v2-16bit-collection", "depth-3"):
+    for need in ("null-field", "null-collection-element", "empty-collection", "aware-timestamp", "v2-unsigned-short-above-32767", "inet-mixed-text", "inet-canonical-text-with-dotted-quad", "wide-integer-64bit-and-beyond", "decimal-scale-int32-limit", "short-udt-encodings", "v2-16bit-collection", "depth-3"):
         if not feats.get(need):
             raise tlc.MachineryError("vacuity: no case with feature %s" % need)
     if not any(f["null"] for f in fam.values()) or not any(f["empty"] for f in fam.values()):
